@@ -22,7 +22,8 @@ LEVEL_TEXT = ("Exhaustive core: each of the four probabilities takes every value
               "command-line entry point (396 generator runs) and through prob_to_str; the manual entry point is swept "
               "for its three probabilities. Beyond it: sampled pairs of full parameter sets (seed, sizes, maximum reward, "
               "four whole percents, force-down) whose paths must parse back to the parameters and differ when the sets "
-              "differ. Exploration with an exhaustive core in k.")
+              "differ. Exploration with an exhaustive core in k."
+              ' Later rounds: generated hand-made boards of 1-4 rows and columns (largest reward and down-only tile anywhere, fractional rewards), seeds beyond 2^64.')
 LEVEL_NOTE = ("Trusted: the regular-expression name parser in props/c17.py. Only whole-percent probabilities are claimed "
               "(the statement says 'as whole percentages').")
 RULE = ("case = one parameter set (exhaustive sweep) or a pair of parameter sets (sampled). Every case is non-trivial; "
